@@ -19,6 +19,9 @@ Section Close.
 
 Variable num : Type.
 Variable isparam : ident -> bool.
+(* which names the expressions in play may assign to (all of them, for beta;
+   all but the let-bound name and what its right-hand side reads, for let) *)
+Variable assignable : ident -> bool.
 
 Notation expr := (expr num).
 Notation scope := (scope num).
@@ -91,7 +94,8 @@ Fixpoint okp (bd : list ident) (e : expr) : bool :=
   match e with
   | ELit _ | EUnitLit => true
   | EIdent y => negb (isparam y) || inb y bd
-  | EParens a | EUn _ a | EAssign _ a => okp bd a
+  | EParens a | EUn _ a => okp bd a
+  | EAssign y a => assignable y && okp bd a
   | EBop _ a b | EApply a b | EApplyFn a b | EApplyMul a b | EStmts a b => okp bd a && okp bd b
   | EFn y body => isparam y && okp (y :: bd) body
   end.
